@@ -516,7 +516,10 @@ def main():
         "wall_s": round(wall, 1),
         "violations": len(violations),
     }
-    with open(os.path.join(V, "evidence", f"{prop}.json"), "w") as f:
+    # runs against a deliberately modified tree (bin/seedrun) must not overwrite the evidence of the real tree
+    evdir = os.environ.get("VERIF_EVIDENCE_DIR") or os.path.join(V, "evidence")
+    os.makedirs(evdir, exist_ok=True)
+    with open(os.path.join(evdir, f"{prop}.json"), "w") as f:
         json.dump(evidence, f, indent=1)
 
     seen = set()
